@@ -20,7 +20,11 @@ Strings in cases and results are ASCII: non-ASCII text is written with unicode_e
 the expected (case tokens) and the observed side; escaping is per character, so it commutes with
 the concatenation the oracle performs.
 
-Command line (from /verif):  /venv/bin/python -m harness.adapters.c17 [quick|thorough] [--seed N]
+Command line (from /verif):  /venv/bin/python -m harness.adapters.c17 [quick|thorough] [--seed N] [--samples]
+                             /venv/bin/python -m harness.adapters.c17 selftest
+(selftest: 25 one-line source mutants of an in-memory copy of app_wrappers.py - /repo is never
+written - must each be flagged with the clause naming the defect, and a PEP-3333-conformant
+rewrite of run_app must pass with no alarm at all.)
 """
 from __future__ import annotations
 
